@@ -39,11 +39,12 @@ namespace vh
     for (std::size_t i = 0; i < nph; ++i)
     {
       std::string pname = t.str();
+      std::string objname = t.str();  // the Phase object's own name_ ("-" = unnamed); the map key is what names the species
       std::size_t k = t.nat();
       std::vector<micm::Species> sp;
       for (std::size_t j = 0; j < k; ++j)
         sp.push_back(speciesDecl(t));
-      phases[pname] = micm::Phase{ sp };
+      phases[pname] = objname == "-" ? micm::Phase{ sp } : micm::Phase(objname, sp);
     }
     std::size_t nrx = t.nat();
     std::vector<micm::Process> procs;
